@@ -294,7 +294,7 @@ func genComposeArgs(r *gen.RNG) (byte, bool, []byte, int32) {
 func runC14(c *Ctx) {
 	c.Parallel("sql", ref.NearestEven, func(sh *mon.Shard, r *gen.RNG) {
 		j := &composeJudge{ctx: c, sh: sh}
-		n := c.N(30000, 600000)
+		n := c.N(200000, 2000000)
 		for i := 0; i < n; i++ {
 			form, neg, coef, exp := genComposeArgs(r)
 			j.judgeCompose(form, neg, coef, exp)
